@@ -184,6 +184,8 @@ impl IsaStringNode {
 
 impl Aml for IsaStringNode {
     fn to_aml_bytes(&self, sink: &mut dyn AmlSink) {
+        // The node length is a 16-bit field
+        assert!(self.len() <= u16::MAX as usize);
         // ISA string length (including NULL terminator)
         let strlen = self.string.len() as u16 + 1;
         let padding_reqd = strlen % 2 == 1;
@@ -240,6 +242,8 @@ impl HartInfoNode {
 impl Aml for HartInfoNode {
     // NOTE: assumes 1 handle for now
     fn to_aml_bytes(&self, sink: &mut dyn AmlSink) {
+        // The node length is a 16-bit field
+        assert!(self.len() <= u16::MAX as usize);
         let ty = RhctNodeType::HartInfo as u16;
         sink.word(ty);
         sink.word(self.len() as u16);
